@@ -174,6 +174,49 @@ def list_paths(n, prefix=(), inherited=None, protected_only=False):
     return out
 
 
+def eff_prio(n, inherited):
+    own = oracles.tag_priority(n[1])
+    return inherited if inherited is not None else (own if own is not None else 0), (inherited if inherited is not None else own)
+
+
+def max_below(n, inherited):
+    """highest effective priority strictly below n"""
+    _, down = eff_prio(n, inherited)
+    kids = n[2] if n[0] == 'seq' else ([c for _, c in n[2]] if n[0] == 'map' else [])
+    best = None
+    for c in kids:
+        here, _ = eff_prio(c, down)
+        m = max_below(c, down)
+        for x in (here, m):
+            if x is not None and (best is None or x > best):
+                best = x
+    return best
+
+
+def protecting_containers(n, prefix=(), inherited=None):
+    """paths of containers that hold, at any depth, a node of strictly higher effective priority than their own"""
+    out = set()
+    here, down = eff_prio(n, inherited)
+    if n[0] in ('map', 'seq'):
+        m = max_below(n, inherited)
+        if m is not None and m > here:
+            out.add(prefix)
+        for kk, c in (n[2] if n[0] == 'map' else list(enumerate(n[2]))):
+            out |= protecting_containers(c, prefix + (str(kk) if n[0] == 'map' else kk,), down)
+    return out
+
+
+def replacing_paths(n, prefix=()):
+    """paths of the replacing containers of a document: lists and mappings tagged !del"""
+    out = set()
+    if n[0] == 'seq' or (n[0] == 'map' and tagk(n) == '!del'):
+        out.add(prefix)
+    if n[0] in ('map', 'seq'):
+        for kk, c in (n[2] if n[0] == 'map' else list(enumerate(n[2]))):
+            out |= replacing_paths(c, prefix + (str(kk) if n[0] == 'map' else kk,))
+    return out
+
+
 def known_sig(k, failing):
     """D18 seen through idempotence: the repeated document has a replacing container holding an element of lower priority than the container"""
     if k['id'] == 'D18' and 'repeating the last document' in failing['failure'].get('reason', ''):
@@ -184,7 +227,14 @@ def known_sig(k, failing):
         older = set()
         for d in docs:
             older |= list_paths(d, protected_only=True)
-        return bool(older & list_paths(docs[-1]))
+        if older & list_paths(docs[-1]):
+            return True
+        # the same root cause one level up: the protected node sits anywhere BELOW an older container (mapping or list) that the repeated document
+        # meets with a replacing container (a list, a !del mapping): the first merge cannot replace wholesale, the second one can
+        prot = set()
+        for d in docs:
+            prot |= protecting_containers(d)
+        return bool(prot & replacing_paths(docs[-1]))
     return False
 
 
@@ -227,6 +277,8 @@ def run(rep, tier, rng):
     for a, b in (("{a: !force [1]}", "{a: [7, 8, 9]}"), ("{a: [1]}", "{a: !weak [7, 8, 9]}"), ("{t: {s: !force [w], lr: 1}}", "{t: {s: [a, b, c, d]}}"),
                  ("{a: !force {l: [1]}}", "{a: {l: [7, 8, 9]}}"), ("{a: !weak [1]}", "{a: [7, 8, 9]}")):
         hist.append([parse_doc(a), parse_doc(b)])
+    # D5 one level up: a protected node below an older MAPPING that the repeated document meets with a list (first merge: key-wise, second: wholesale)
+    hist.append([parse_doc("{a: !del {1: !merge {b: !force 1.5}, r: {a: ''}}}"), parse_doc("!del {a: [{r: 3}, 0]}")])
     # a mapping whose integer keys lie beyond the end of the list it meets: an error for every order of its entries and every repetition
     for a, b in (("{a: [1, 2, 3], b: 0}", "{a: {5: x, 7: y}}"), ("{a: [1]}", "{a: {2: x, 1: y}}"), ("{l: [0]}", "{l: {1: a, 3: b, 2: c}}"), ("{t: {l: [1, 2]}}", "{t: {l: {2: p, 4: q}}}")):
         hist.append([parse_doc(a), parse_doc(b)])
